@@ -46,6 +46,13 @@ func Printf(ctx *runtime.Task, funcExpr *ast.CallExpr) *errchain.PlError {
 		}
 	}
 
+	for i, v := range outdata {
+		if containsItself(v) {
+			return runtime.NewRunError(ctx, "a value that contains itself cannot be formatted",
+				funcExpr.Param[i+1].StartPos())
+		}
+	}
+
 	if _, err := fmt.Printf(fmtStr, outdata...); err != nil {
 		l.Debug(err)
 	}
